@@ -32,7 +32,7 @@ def rand_tod6(rng):
 
 
 def generate(rng, tier):
-    n = 4000 if tier == "quick" else 100000
+    n = 12000 if tier == "quick" else 200000
     cases = []
     for i in range(n):
         md = MODES[i % 4]
